@@ -20,6 +20,7 @@ rule) GaussianSimulator.  Four families of sub-explorations:
          handed the conditional Gaussian of the joint law.
 """
 
+import contextlib
 import itertools
 import json
 import math
@@ -86,6 +87,8 @@ def initial_terms(simkind, init, d):
     z = (0,) * (d - 2)
     if init == "n11":
         return [(1.0, (1, 1) + z)]
+    if init in ("n1", "f1"):
+        return [(1.0, (1, 0) + z)]
     if init == "n2":
         return [(1.0, (2, 0) + z)]
     if init == "n21":
@@ -945,6 +948,278 @@ def check_shots(case, stats):
 
 
 # ---------------------------------------------------------------------------------------
+# family "budget": the (k, N) lattice of nested shot budgets, one forced execution per lattice point
+
+
+_REC_CLASSES = {}
+
+
+def recording_simulator(case, log):
+    """the simulator of the case as a thin user-level subclass whose _instruction_map entries of the particle-number
+    measurements are wrapped: every call of the simulation step appends (instruction class, modes, the `shots`
+    argument it was handed, the outcome / frequency of the branches it returned) to `log`"""
+    import piquasso as pq
+
+    base = type(build_sim(case))
+    cls = _REC_CLASSES.get(base)
+    if cls is None:
+
+        class Recording(base):
+            @property
+            def _instruction_map(self):
+                m = self.__dict__.get("_c03_map")
+                if m is None:
+                    m = dict(super()._instruction_map)
+                    for mcls in (pq.ParticleNumberMeasurement, pq.ImperfectParticleNumberMeasurement):
+                        if mcls in m:
+                            m[mcls] = self._c03_wrap(m[mcls])
+                    self.__dict__["_c03_map"] = m
+                return m
+
+            def _c03_wrap(self, step):
+                def wrapped(state, instruction, shots):
+                    log_ = self._c03_log
+                    entry = {"cls": type(instruction).__name__, "modes": tuple(int(m) for m in instruction.modes), "shots": shots, "d0": len(self._c03_draws)}
+                    log_.append(entry)
+                    out = step(state, instruction, shots)
+                    entry["d1"] = len(self._c03_draws)
+                    entry["sub"] = [(tuple(int(x) for x in b.outcome), b.frequency) for b in out]
+                    return out
+
+                return wrapped
+
+        Recording.__name__ = base.__name__
+        Recording.__qualname__ = base.__qualname__
+        cls = _REC_CLASSES[base] = Recording
+    kw = dict(cutoff=case["cutoff"])
+    if case.get("K"):
+        kw["max_sample_generation_trials"] = case["K"]
+    sim = cls(d=case["d"], config=pq.Config(**kw))
+    sim._c03_log = log
+    sim._c03_draws = []
+    return sim
+
+
+def budget_ops(simkind, levels, seed):
+    """PNM(0), gate with an outcome-dependent parameter on (1, 2), PNM(1) [, gate on 2 with an outcome-dependent
+    parameter, PNM(2)] on three modes"""
+    ops = [{"k": "pnm", "modes": [0]}, make_gate(simkind, "Gpc", [1, 2], 1, seed), {"k": "pnm", "modes": [1]}]
+    if levels == 3:
+        ops += [make_gate(simkind, "Gps", [2], 3, seed), {"k": "pnm", "modes": [2]}]
+    return ops
+
+
+def _two(k, a, n):
+    if n < 2:
+        return [0] * k
+    a = max(0, min(a, k))
+    return [0] * a + [1] * (k - a)
+
+
+def budget_policy(case):
+    """what the harness dictates: the first categorical draw returns k1 times its first and (what it was asked for) - k1
+    times its second outcome; the second draw (the second-level measurement of the first first-level branch) returns k2
+    times its first outcome and the rest its second one -- k2 = None: all but one its first outcome; every other draw
+    returns its first outcome only."""
+    k1, k2 = case["k1"], case.get("k2")
+
+    def policy(ci, n, k):
+        if ci == 0:
+            return _two(k, k1, n)
+        if ci == 1:
+            return _two(k, k - 1 if k2 is None else k2, n)
+        return [0] * k
+
+    return policy
+
+
+_BUDGET_ENV = {}
+
+
+def _bin(samples):
+    out = {}
+    for s in samples:
+        out[s] = out.get(s, 0) + 1
+    return list(out.items())
+
+
+def budget_one(case, stats, env):
+    """one execution of the real simulator under forced draws; env = (ctl, draws list shared with the forcing seam)"""
+    import piquasso as pq
+    from mc import core
+
+    ctl, draws = env["ctl"], env["draws"]
+    simkind, N = case["sim"], case["shots"]
+    key = (simkind, case["levels"], case["seed"], case["d"], case["cutoff"], case["init"])
+    cached = env["cache"].get(key)
+    if cached is None:
+        log = []
+        c0 = dict(case, ops=budget_ops(simkind, case["levels"], case["seed"]))
+        sim = recording_simulator(c0, log)
+        sim._c03_draws = draws
+        program = pq.Program(instructions=build_instructions(c0))
+        cached = env["cache"][key] = (sim, program, log, c0["ops"])
+    sim, program, log, ops = cached
+    case = dict(case, ops=ops)
+    del log[:]
+    del draws[:]
+    env["policy"][0] = budget_policy(case)
+    verdicts = []
+
+    def add(sub, msg, **extra):
+        s = sig(case, sub, **extra)
+        if all(s != v[0] for v in verdicts):
+            verdicts.append((s, "shots=%d, k1=%s, k2=%s: %s" % (N, case["k1"], case.get("k2"), msg)))
+
+    def fn():
+        res = sim.execute(program, shots=N)
+        return observe(simkind, res, N, with_states=False)
+
+    stats["executions"] = stats.get("executions", 0) + 1
+    path = ctl.run(fn, ())
+    if path.points:
+        raise core.HarnessError("HARNESS-UNCAPTURED a forced C03 budget execution met %d free choice points" % len(path.points))
+    if path.exception is not None:
+        e = path.exception
+        u = _unsupported(e)
+        if u:
+            stats["unsupported_" + u] = stats.get("unsupported_" + u, 0) + 1
+            return verdicts
+        add("exception", "raised %s: %s" % (type(e).__name__, str(e)[:300]), exception=type(e).__name__)
+        return verdicts
+    obs = path.result
+    stats["paths"] = stats.get("paths", 0) + 1
+    stats["lattice_points"] = stats.get("lattice_points", 0) + 1
+    # ---- independent bookkeeping: every branch hands its own count to the next measurement
+    branches = [((), N)]
+    li = 0
+    for op in ops:
+        if op["k"] != "pnm":
+            continue
+        new = []
+        for outcome, count in branches:
+            if li >= len(log):
+                add("budget", "the measurement of %s ran for fewer branches than the draws created (%d)" % (op["modes"], len(branches)))
+                return verdicts
+            entry = log[li]
+            li += 1
+            stats["budgets_checked"] = stats.get("budgets_checked", 0) + 1
+            if entry["shots"] != count or type(entry["shots"]) is not int:
+                add(
+                    "nested_budget",
+                    "the branch with history %s holds %d of the %d shots (frequency %s) but the simulation step of the next measurement "
+                    "was handed shots=%r" % (outcome, count, N, Fraction(count, N), entry["shots"]),
+                )
+                return verdicts
+            if entry.get("d1", -1) - entry["d0"] != 1:
+                raise core.HarnessError("HARNESS-UNCAPTURED a particle-number measurement step made %s categorical draws" % (entry.get("d1", -1) - entry["d0"],))
+            d = draws[entry["d0"]]
+            if d["k"] != count:
+                add("budget", "the measurement step was handed shots=%d but asked its sampler for %d outcomes" % (count, d["k"]))
+                return verdicts
+            binned = _bin(d["answer"])
+            if entry["sub"] != [(s, Fraction(c, count)) for s, c in binned]:
+                add("step_frequencies", "a sampler returned %s for %d shots, the measurement step made the branches %s" % (binned, count, entry["sub"]))
+                return verdicts
+            new.extend((outcome + s, c) for s, c in binned)
+        branches = new
+    if li != len(log):
+        add("budget", "%d measurement steps ran, the branches the draws created need %d" % (len(log), li))
+        return verdicts
+    expected = {}
+    for o, c in branches:
+        expected[o] = expected.get(o, 0) + c
+    stats["tree_states"] = stats.get("tree_states", 0) + 1 + len(log)
+    stats["tree_edges"] = stats.get("tree_edges", 0) + sum(len(e["sub"]) for e in log)
+    stats["max_shots"] = max(stats.get("max_shots", 0), N)
+    # ---- the Result
+    samples = obs["samples"]
+    if len(samples) != N:
+        add("sample_count", "returned %d samples" % len(samples))
+    if sorted(samples) != sorted(o for o, c in expected.items() for _ in range(c)):
+        add("samples", "the samples are not the multiset the draws dictated: got %s, dictated %s" % (_bin(sorted(samples)), sorted(expected.items())))
+    counts = obs["counts"]
+    if sum(counts.values()) != N or counts != expected:
+        add("counts", "get_counts() = %s (sum %d), the draws dictated %s" % (counts, sum(counts.values()), expected))
+    total, seen, typed = Fraction(0), {}, True
+    for b in obs["branches"]:
+        f = b["freq"]
+        if not isinstance(f, Fraction):
+            add("frequency_type", "branch %s has frequency %r of type %s" % (b["outcome"], f, type(f).__name__), type=type(f).__name__)
+            typed = False
+            continue
+        if N % f.denominator != 0 or f <= 0:
+            add("frequency_value", "branch %s has frequency %s, not k/%d with a positive integer k" % (b["outcome"], f, N))
+        total += f
+        seen[b["outcome"]] = seen.get(b["outcome"], 0) + f
+    if typed:
+        if total != 1:
+            add("frequency_sum", "branch frequencies sum to %s" % (total,))
+        if seen != {o: Fraction(c, N) for o, c in expected.items()}:
+            add("frequencies", "branch frequencies %s, the draws dictated %s" % (seen, expected))
+    if len(seen) != len(obs["branches"]) and typed:
+        add("duplicate_outcome", "two branches carry the same outcome")
+    return verdicts
+
+
+@contextlib.contextmanager
+def budget_env():
+    """owned randomness + forced categorical draws, entered once for many lattice points"""
+    from mc.choice import ChoiceController, owned_randomness
+    from mc.c03_own import forcing
+
+    ctl = ChoiceController(max_paths=1)
+    draws = []
+    policy = [None]
+    with owned_randomness(ctl, choices_mode="multiset", shuffle_mode="identity"):
+        with forcing(ctl, lambda ci, n, k: policy[0](ci, n, k), draws):
+            yield {"ctl": ctl, "draws": draws, "policy": policy, "cache": {}}
+
+
+def check_budget(case, stats, env=None):
+    if env is not None:
+        return budget_one(case, stats, env)
+    with budget_env() as env:
+        return budget_one(case, stats, env)
+
+
+def budget_lattice(levels, nmax):
+    """levels 2: every (N, k1) with 1 <= N <= nmax, 0 <= k1 <= N;  levels 3: every (N, k1, k2), 0 <= k2 <= k1 <= N"""
+    for N in range(1, nmax + 1):
+        for k1 in range(0, N + 1):
+            if levels == 2:
+                yield N, k1, None
+            else:
+                for k2 in range(0, k1 + 1):
+                    yield N, k1, k2
+
+
+def work_budget(ctx, simkind, d, init, ch, nchunk, bounds):
+    import piquasso as pq
+
+    base = {"fam": "budget", "sim": simkind, "d": d, "init": init, "cutoff": 2, "seed": ctx.seed}
+    sim = build_sim(base)
+    if pq.ParticleNumberMeasurement not in sim._measurement_classes_allowed_mid_circuit:
+        # the simulator's own declaration; one probe execution confirms the refusal (an unsupported cell)
+        case = dict(base, levels=2, shots=2, k1=1, k2=None)
+        run_case(ctx, case)
+        return
+    with budget_env() as env:
+        for levels in (2, 3):
+            for i, (N, k1, k2) in enumerate(budget_lattice(levels, bounds[levels])):
+                if (N + k1) % nchunk != ch:
+                    continue
+                case = dict(base, levels=levels, shots=N, k1=k1, k2=k2)
+                run_case(ctx, case, env)
+                if N <= 6:
+                    ctx.note_distinct(case)
+                if N == 5 and k1 == 2 and not k2:
+                    ctx.sample(case)
+    ctx.counters["max_budget_N_2level"] = max(ctx.counters.get("max_budget_N_2level", 0), bounds[2])
+    ctx.counters["max_budget_N_3level"] = max(ctx.counters.get("max_budget_N_3level", 0), bounds[3])
+
+
+# ---------------------------------------------------------------------------------------
 # dispatch, determinism, replay
 
 
@@ -958,6 +1233,8 @@ def check_case(case, stats, cache=None):
         return check_shots(case, stats)
     if fam == "gauss":
         return check_gauss(case, stats), None
+    if fam == "budget":
+        return check_budget(case, stats, cache), None
     raise KeyError(fam)
 
 
@@ -986,7 +1263,7 @@ def run_case(ctx, case, cache=None):
         # every violation is executed a second time before it is reported; a signature that was already confirmed
         # in this worker is not re-confirmed for each of its (often hundreds of) further occurrences
         if any(k not in _CONFIRMED for k in keys):
-            again, _ = check_case(case, {}, None)
+            again, _ = check_case(case, {}, cache if case["fam"] == "budget" else None)
             if _sigkeys(again) != keys:
                 raise core.HarnessError(
                     "HARNESS-NONDETERMINISM C03 case gave %s then %s: %s" % (keys, _sigkeys(again), json.dumps(core.jsonable(case))[:500])
@@ -1033,6 +1310,7 @@ def _bounds(tier):
             passive_real={2: dict(depth=3, max_meas=2, max_gates=1, N={1: 3}), 3: dict(depth=2, max_meas=2, max_gates=0, N={1: 2})},
             inits={"pure": ("n11", "sup"), "fock": ("mix",), "passive": ("n11", "n2"), "fermi": ("f11", "fsup")},
             shots_inits={"pure": ("n11",), "fock": ("mix",), "passive": ("n11",), "fermi": ("fsup",)},
+            budget={2: 120, 3: 24},
         )
     return dict(
         ds=(2, 3, 4),
@@ -1044,6 +1322,7 @@ def _bounds(tier):
         inits={"pure": ("n11", "sup", "n21"), "fock": ("mix", "n11"), "passive": ("n11", "n2", "n21"), "fermi": ("f11", "fsup", "fnum")},
         inits_d4={"pure": ("n11", "sup"), "fock": ("mix",), "passive": ("n11", "n2"), "fermi": ("f11", "fsup")},
         shots_inits={"pure": ("n11", "sup"), "fock": ("mix",), "passive": ("n11", "n2"), "fermi": ("fsup", "fnum")},
+        budget={2: 400, 3: 60},
     )
 
 
@@ -1081,8 +1360,12 @@ def _items(tier):
                 for ch in range(n):
                     items.append(("shots", simkind, d, init, ch, n))
     items.append(("gauss", "gauss", 0, "", 0, 1))
+    for simkind in ("pure", "passive", "fermi", "fock"):
+        n = 1 if simkind == "fock" else {"quick": 2, "thorough": 12}[tier]
+        for ch in range(n):
+            items.append(("budget", simkind, 3, "f1" if simkind == "fermi" else "n1", ch, n))
     # heavy items first (the pool takes them in order): shots at d = 3, then trees
-    order = {"shots": 0, "tree": 1, "part": 2, "gauss": 2}
+    order = {"shots": 0, "tree": 1, "part": 2, "gauss": 2, "budget": 1}
     items.sort(key=lambda it: (order[it[0]], -it[2]))
     return items
 
@@ -1136,6 +1419,8 @@ def work(ctx, item):
     tier = ctx.tier
     b = _bounds(tier)
     seed = ctx.seed
+    if fam == "budget":
+        return work_budget(ctx, simkind, d, init, ch, nchunk, b["budget"])
     cutoff = max_photons(simkind, init, d) + 1
     base = {"sim": simkind, "d": d, "init": init, "cutoff": cutoff, "seed": seed}
     # the simulator's own declaration of what it allows mid-circuit
